@@ -161,6 +161,7 @@ class Func:
         self.line = d.get('l', 0)
         self.endl = d.get('endl', 0)
         self.params = d.get('params', [])
+        self.renamed = alpha_normalise(unit, d, self.file)
         self.static = d.get('static', False)
         self.ret = d.get('ret')
         self._ecache = {}
@@ -825,6 +826,79 @@ def cond_atom(c):
     return c, pol
 
 
+
+# ------------------------------------------------------------------------------------
+# alpha-conversion of renamed locals (see tools/gen_names.py)
+# ------------------------------------------------------------------------------------
+_NAMES = None
+
+
+def decl_list(fd):
+    """[(decl id, name, type, kind)] of the parameters and locals of a function record, in declaration order."""
+    out = {}
+    for p in fd.get('params', []):
+        if p.get('n') and 'd' in p:
+            out[p['d']] = (p['n'], p.get('ty', ''), 'parm')
+    for n in fd.get('nodes', []):
+        if n.get('k') == 'decl':
+            for v in n.get('vars', []):
+                if v.get('n') and 'd' in v and v['d'] not in out:
+                    out[v['d']] = (v['n'], v.get('ty', ''), 'var')
+    return [[d, out[d][0], out[d][1], out[d][2]] for d in sorted(out)]
+
+
+def alpha_normalise(unit, fd, file):
+    """If the locals / parameters of this function differ from the reference spelling only by their names,
+    rewrite the facts to the reference names (binding by declaration: same type, same order among the
+    renamed ones).  Returns {reference name: actual name} or {}."""
+    global _NAMES
+    import os as _os
+    if _os.environ.get('VERIF_NO_ALPHA'):
+        return {}
+    if _NAMES is None:
+        try:
+            with open(_os.path.join(_os.path.dirname(_os.path.abspath(__file__)), 'names.json')) as f:
+                _NAMES = json.load(f)
+        except OSError:
+            _NAMES = {}
+    if not file.startswith('/repo/'):
+        return {}
+    ref = _NAMES.get('%s:%s' % (_os.path.relpath(file, '/repo'), fd['name']))
+    if not ref:
+        return {}
+    act = decl_list(fd)
+    ref_names = [r[1] for r in ref]; act_names = [a[1] for a in act]
+    if ref_names == act_names:
+        return {}
+    new = [a for a in act if a[1] not in ref_names]
+    missing = [r for r in ref if r[1] not in act_names]
+    if not new or not missing:
+        return {}
+    mapping = {}        # decl id -> reference name
+    by_ty_new, by_ty_mis = {}, {}
+    for a in new:
+        by_ty_new.setdefault((a[2], a[3]), []).append(a)
+    for r in missing:
+        by_ty_mis.setdefault((r[2], r[3]), []).append(r)
+    for ty, an in by_ty_new.items():
+        rm = by_ty_mis.get(ty, [])
+        if len(rm) == len(an):
+            for a, r in zip(an, rm):
+                mapping[a[0]] = r[1]
+    if not mapping:
+        return {}
+    back = {}
+    for p in fd.get('params', []):
+        if p.get('d') in mapping:
+            back[mapping[p['d']]] = p['n']; p['n'] = mapping[p['d']]
+    for n in fd.get('nodes', []):
+        if n.get('k') == 'ref' and n.get('d') in mapping and n.get('dk') in ('var', 'parm', 'svar'):
+            back[mapping[n['d']]] = n['n']; n['n'] = mapping[n['d']]
+        elif n.get('k') == 'decl':
+            for v in n.get('vars', []):
+                if v.get('d') in mapping:
+                    back[mapping[v['d']]] = v['n']; v['n'] = mapping[v['d']]
+    return back
 
 # ------------------------------------------------------------------------------------
 # units
